@@ -74,8 +74,17 @@ pub fn hist(a: &Args, rep: &mut Report) {
     let mut rng = sh.rng(profile as u64);
     let focus = crate::run::static_prop(&rep.prop);
     rep.notes.insert("profile".into(), format!("{profile:?}"));
+    let skip = a.u64("skip", 0);
+    let progress = a.map.get("progress").cloned();
     for h in 0..sh.n {
         let mut hr = rng.fork();
+        if h < skip {
+            continue;
+        }
+        if let Some(pf) = &progress {
+            // lets the driver resume after this history if it kills the process
+            let _ = std::fs::write(pf, h.to_string());
+        }
         let mut p = plan(&mut hr, profile, small);
         p.cfg.focus = focus;
         let mut gen = Gen::new(hr.next(), profile, p.keyspace, p.tail, p.max_len);
